@@ -165,6 +165,18 @@ var c19Inputs = []struct {
 	{"trailing comma", `[1, 2,]`, false},
 	{"NaN", `NaN`, false},
 	{"bare word", `nul`, false},
+	{"a number beyond the range of float64", `{"a": 1e400}`, false},
+	{"a number beyond the range, nested", `{"a": {"b": [1, 1e309]}, "s": "x"}`, false},
+	{"a negative number beyond the range", `-1e400`, false},
+	{"a number beyond the range in a list", `[1e999]`, false},
+	{"UTF-16LE without a mark", "{\x00\"\x00a\x00\"\x00:\x00 \x002\x00}\x00", false},
+	{"UTF-16LE with a mark", "\xff\xfe{\x00\"\x00a\x00\"\x00:\x002\x00}\x00", false},
+	{"UTF-16BE without a mark", "\x00{\x00\"\x00a\x00\"\x00:\x002\x00}", false},
+	{"UTF-16BE with a mark", "\xfe\xff\x00[\x001\x00,\x002\x00]", false},
+	{"UTF-32LE", "[\x00\x00\x001\x00\x00\x00]\x00\x00\x00", false},
+	{"UTF-16LE number", "4\x002\x00", false},
+	{"Latin-1 bytes in a string", "{\"a\": \"caf\xe9\"}", true},
+	{"a UTF-8 mark in the middle", "[1,\xef\xbb\xbf2]", false},
 	{"members named like numbers and near-identifiers", `{"2fa": "on", "0": "zero", "1a": 1, "9_": 2, "007": "bond", "1e5": 3, "0x10": 4, "a-b": 5, "-a": 6, "n\u00e9": 7, "a$": 8, "1": [1], "00": {}, "a": {"2fa": true, "b": {}}, "s": "x", "n": 1}`, true},
 	{"object followed by a stray closing brace", `{"a": 1}}`, false},
 	{"array followed by a stray closing bracket", `[1, 2]]`, false},
@@ -259,6 +271,8 @@ func c19(r *mon.Run) {
 		"to_string(o)", "to_string(arr)", "to_string(@)", "'\\u003e'", "'\\u0026amp; \\u003c'", "keys(o)", "to_string(to_string(@))", "join('', arr)", "to_string(objs[*].s)", "o", "t", "[a, s, t]", "to_string(t)", "`\"\\\\u003c\"`", "to_string(`\"<&>\"`)", "to_string(['<', '>', '&'])",
 		"join('\t', arr[*].to_string(@))", "contains(s, '\n')", "'a\tb\nc\rd'", "`\"tab\\there\"`", "[`1`,\n\t`2`]\r\n", "{k:\n'v\tw'}", "\"a\" ||\n 'multi\nline'", "sum(a)", "avg(arr)", "avg(objs[*].n)", "sum(objs[*].n)", "[n, s, t, b, c]", "max(a)", "a[0]", "sum(a) == t", "objs[?n > `0.5`].n | [0]", "[[[[[[[[[[[[[[[[[[[[[[[[[[[[[[[[[[[[[[[[@]]]]]]]]]]]]]]]]]]]]]]]]]]]]]]]]]]]]]]]]", "{a:{a:{a:{a:{a:{a:{a:{a:{a:{a:{a:{a:{a:{a:{a:{a:{a:{a:{a:{a:{a:{a:{a:{a:{a:{a:{a:{a:{a:{a:{a:{a:{a:{a:{a:{a:@}}}}}}}}}}}}}}}}}}}}}}}}}}}}}}}}}}}}", "a", "a.a", "[0]", "type(@)", "length(@)", "reverse(@)", "starts_with(@, '[')", "foo.bar", "sort(@)", "join(',', @)", "[0]", "@ == '[]'", "\"max:Infinity\"", "contains(a, 'NaN')", "arr[?contains(@, 'NaN')]", "objs[?s == 'NaN'].n", "length(s)", "keys(@)", "arr[0]", "ends_with(s, ', 0)')",
 		// words a command-line program might take for a sub-command or a flag value: here they are field names
+		// calls that would fail if they were made, in places this input never reaches: valid expressions, a value from the library
+		"s || nosuch(a)", "z && abs()", "missing[*].nosuch(@)", "arr[:0].nosuch(@)", "objs[?n > `99`].abs()", "s || upper(s)", "t || (z && length())", "[s || nosuch(), n]", "{k: z && nosuch(@)}", "not_null(s || abs('x'))", "map(&nosuch(@), `[]`)", "sort_by(`[]`, &abs())", "z.*.nosuch(@)",
 		"version", "help", "h", "v", "usage", "completion", "input", "stdin", "file", "filename", "expr", "ast", "true", "false", "null", "test", "run", "env", "list", "get", "jpgo", "version.number", "help || s", "[version, help]", "{version: n, help: s}"}
 	evalErr := []string{"abs('x')", "abs()", "nosuchfn(@)", "arr[::0]", "sort_by(objs, &@)", "length(n)", "[abs(s), n]", "objs[*].abs(s)", "merge(@, `1`)", "to_string(&a)", "sum(a)", "max(`[1, \"a\"]`)",
 		// one expression per place where the library raises an evaluation error (whatever classifies errors to pick an exit status has a class for each)
